@@ -139,6 +139,13 @@ Theorem mulM_mulMInv_id_R (t : tree X) :
   (forall y, In y (flatten (abi_pass KR AR nd t)) -> body_ok y) ->
   Forall (fun r => snd r = d_f (dy (w_x (fst (fst r))))) (flatten (mulM_of_mulMInv KR AR nd dy t)).
 Proof. eapply mulM_mulMInv_id; laws. Qed.
+(** the two routes to the mobilizer reaction forces (C14): free-body recursion on the forward-dynamics accelerations
+    = P+ (~phi A_parent) + z+ at every body of every tree *)
+Theorem reaction_routes_agree_R (t : tree X) :
+  (forall y, In y (flatten (abi_pass KR AR nd t)) -> body_ok y) ->
+  map (fun r => (fst (fst r), snd r)) (flatten (react_fb KR AR nd dy t))
+  = map (fun r => (fst r, snd (snd r))) (flatten (react_art KR AR nd dy t)).
+Proof. eapply reaction_routes_agree; laws. Qed.
 End C02R.
 
 (** ** the per-body hypothesis for small mobility spaces *)
